@@ -3286,7 +3286,12 @@ template< size_t L>
    size_t FixedString< L>::find_last_of( const char* str, size_t pos,
       size_t count) const noexcept
 {
-   if ((pos > mLength) || (str == nullptr) || (count == 0))
+   if ((str == nullptr) || (count == 0) || (mLength == 0))
+      return std::string::npos;
+   // not set: start at the end of the string
+   if (pos == std::string::npos)
+      pos = mLength - 1;
+   if (pos > mLength)
       return std::string::npos;
    for (size_t idx = pos + 1; idx-- > 0; )
    {
@@ -3366,7 +3371,12 @@ template< size_t L>
    size_t FixedString< L>::find_last_not_of( const char* str, size_t pos,
       size_t count) const noexcept
 {
-   if ((pos > mLength) || (str == nullptr) || (count == 0))
+   if ((str == nullptr) || (count == 0) || (mLength == 0))
+      return std::string::npos;
+   // not set: start at the end of the string
+   if (pos == std::string::npos)
+      pos = mLength - 1;
+   if (pos > mLength)
       return std::string::npos;
    for (size_t idx = pos + 1; idx-- > 0; )
    {
